@@ -242,10 +242,19 @@ FROM_ICAL = {
 }
 SED = [('start', 'OptD'), ('end_', 'OptD'), ('duration', 'OptTDS')]
 # how the object operations are spelled for the value type of a group (the hand model's type of date / datetime objects)
-OBJ = {'alarm': {'isdate': 'true', 'isdatetime': '(!(Trig.isDate {x}))', 'add': '(pyAdd {a} {b})'},
+OBJ = {'alarm': {'isdate': 'true', 'isdatetime': '(!(Trig.isDate {x}))', 'add': '(pyAdd {a} {b})', 'naive': '(!(Trig.isAware {x}))'},
        'se': {'isdate': '(SE.Val.isDT {x})', 'isdatetime': '(SE.Val.isDatetime {x})', 'add': '(SE.Val.addDur {a} {b})'}}
 ALARMTIME = {'_last_ack': ('last_ack', 'OptD'), '_snooze_until': ('snooze_until', 'OptD'), '_trigger': ('trigger_raw', 'D'),
              'alarm.ACKNOWLEDGED': ('alarm_acknowledged', 'OptD')}
+ALARMS = {'_absolute_alarms': ('absolute_alarms', 'List:A'), '_start_alarms': ('start_alarms', 'List:A'),
+          '_end_alarms': ('end_alarms', 'List:A'), '_start': ('start', 'OptD'), '_end': ('end_', 'OptD'),
+          '_local_tzinfo': ('local_tzinfo', 'Opt:TZ'), '_last_ack': ('last_ack', 'OptD'),
+          '_snooze_until': ('snooze_until', 'OptD'), '_parent': ('parent', 'Par')}
+ALARMS_EXT = {'to_datetime': ('fun', 'to_datetime', ['D'], 'D'), 'normalize_pytz': ('fun', 'normalize_pytz', ['D'], 'D'),
+              'tzp.localize': ('fun', 'localize', ['D', 'TZ'], 'D'),
+              'AlarmTime': ('fun', 'mk_alarm_time', ['A', 'D', 'OptD', 'OptD', 'Par'], 'AT'),
+              'alarm.REPEAT': ('expr', 'alarm_repeat', ['alarm'], 'Int'),
+              'alarm.DURATION': ('expr', 'alarm_duration', ['alarm'], 'OptTDS')}
 TARGETS = [
     Target('prop.py', 'vDuration', 'to_ical', 'vDuration_to_ical', None, {'td': ('td', 'TD')}, {}, False),
     Target('prop.py', 'vUTCOffset', 'to_ical', 'vUTCOffset_to_ical', None, {'td': ('td', 'TD')}, {}, False),
@@ -312,6 +321,20 @@ TARGETS = [
            False, 'alarm', {'first': 'D', 'alarm': 'Object'}, None, 'DList'),
     Target('alarms.py', 'Alarms', 'active', 'Alarms_active', None, {'times': ('times', 'ATList')},
            {'is_active': ('pmeth', 'is_active', 'AT')}, False, 'alarm', None, None, 'ATList'),
+    # Alarms.times and what it is made of (C14).  An alarm component is an opaque `A`; its properties TRIGGER, REPEAT,
+    # DURATION (properties of cal.Alarm) are function parameters of it; TRIGGER is a datetime for the alarms of
+    # `_absolute_alarms` and a timedelta for those of `_start_alarms` / `_end_alarms` (add_alarm sorts them so);
+    # `tzp.localize`, the constructor `AlarmTime(..)` are function parameters; the local time zone `TZ` and the
+    # parent `Par` are opaque
+    Target('alarms.py', 'Alarms', '_alarm_time', 'Alarms_alarm_time', None, ALARMS, ALARMS_EXT, False, 'alarm',
+           {'alarm': 'A', 'trigger': 'D'}, None, 'AT'),
+    Target('alarms.py', 'Alarms', '_get_absolute_alarm_times', 'Alarms_get_absolute_alarm_times', None, ALARMS,
+           dict(ALARMS_EXT, **{'alarm.TRIGGER': ('expr', 'alarm_trigger_abs', ['alarm'], 'D')}), False, 'alarm', None, None, 'List:AT'),
+    Target('alarms.py', 'Alarms', '_get_start_alarm_times', 'Alarms_get_start_alarm_times', None, ALARMS,
+           dict(ALARMS_EXT, **{'alarm.TRIGGER': ('expr', 'alarm_trigger_rel', ['alarm'], 'TDS')}), False, 'alarm', None, None, 'List:AT'),
+    Target('alarms.py', 'Alarms', '_get_end_alarm_times', 'Alarms_get_end_alarm_times', None, ALARMS,
+           dict(ALARMS_EXT, **{'alarm.TRIGGER': ('expr', 'alarm_trigger_rel', ['alarm'], 'TDS')}), False, 'alarm', None, None, 'List:AT'),
+    Target('alarms.py', 'Alarms', 'times', 'Alarms_times', None, ALARMS, ALARMS_EXT, False, 'alarm', None, None, 'List:AT'),
     # ---- component trees (C20): `self` is the hand model's `Comp`; `select` is a function argument
     Target('cal.py', 'Component', '_walk', 'Component__walk', 'Comp', {}, {}, False, 'walk',
            {'name': 'OptStr', 'select': 'Fn:Comp:Bool'}, None, 'CompList', {'result': 'CompList'}),
@@ -818,7 +841,7 @@ class Fn:
             if not (isinstance(right_node, ast.Constant) and type(right_node.value) is int and right_node.value != 0):
                 self.fail(node, f'{k} whose divisor is not a non-zero int literal')
             return V(f'({"floorDiv" if k == "FloorDiv" else "pyMod"} {a.lean} {b.lean})', 'Int', None)
-        if k == 'Add' and a.type == b.type and a.type in ('CompList', 'ItemList', 'StrList'):
+        if k == 'Add' and a.type == b.type and (a.type in ('CompList', 'ItemList', 'StrList') or a.type.startswith('List:')):
             return V(f'({a.lean} ++ {b.lean})', a.type, None)
         if k == 'Add' and ts in (('Str', 'Str'), ('Bytes', 'Bytes')):
             return V(f'({a.lean} ++ {b.lean})', a.type, None)
@@ -841,8 +864,19 @@ class Fn:
             if x.type == 'D':       # a date has no tzinfo: AttributeError
                 g = self.hoist(node, f'tzinfoIsNone {x.lean}', 'Bool')
                 return g if k == 'Is' else V(f'(!{g.lean})', 'Bool', None)
+        if k in ('Is', 'IsNot') and none and isinstance(node.left, ast.Call) and ast.unparse(node.left.func) == 'getattr' \
+                and 'getattr' not in self.modnames and len(node.left.args) == 3 and not node.left.keywords \
+                and isinstance(node.left.args[1], ast.Constant) and node.left.args[1].value == 'tzinfo' \
+                and isinstance(node.left.args[2], ast.Constant) and node.left.args[2].value is None \
+                and 'naive' in OBJ.get(self.t.group, {}):
+            x = self.expr(node.left.args[0], env)
+            if x.type == 'D':
+                g = OBJ[self.t.group]['naive'].format(x=x.lean)
+                return V(g if k == 'Is' else f'(!{g})', 'Bool', None)
         if k in ('Is', 'IsNot') and none:
             x = self.expr(node.left, env)
+            if x.type.startswith('Opt:'):
+                return V(f'{x.lean}.{"isNone" if k == "Is" else "isSome"}', 'Bool', None)
             if x.type in ('OptD', 'OptInt', 'OptStr', 'OptTDS'):
                 return V(f'{x.lean}.{"isNone" if k == "Is" else "isSome"}', 'Bool', None)
             if x.type in ('D', 'Int', 'Str', 'TD', 'TDS'):
@@ -974,6 +1008,14 @@ class Fn:
             out.append(v)
         return out
 
+    def none_is_error(self, node, v):
+        """an optional date / datetime handed to a translated method that takes the object: None makes the callee raise
+        TypeError at its first use (`None + timedelta`); a present value is used"""
+        x = self.narrow.get(v.lean, v)
+        if x.type == 'D':
+            return x
+        return self.hoist(node, f'(match {v.lean} with | some d\' => pure d\' | none => throw Exc.typeError)', 'D')
+
     def call_args(self, node, env):
         """positional arguments; `*t` spreads a tuple display"""
         out = []
@@ -1007,14 +1049,18 @@ class Fn:
         """`[x for x in xs if x.m()]` over a list of opaque objects whose method `m` is a parameter;
         `[E for v in xs]` whose E can raise: the elements in order, the first exception ends it"""
         g = node.generators[0]
-        if len(node.generators) == 1 and not g.is_async and isinstance(g.target, ast.Name) and not g.ifs:
+        two = len(node.generators) == 2 and all(not h.is_async and isinstance(h.target, ast.Name) and not h.ifs for h in node.generators) \
+            and node.generators[0].target.id != node.generators[1].target.id
+        if (len(node.generators) == 1 or two) and not g.is_async and isinstance(g.target, ast.Name) and not g.ifs:
             xs = self.expr(g.iter, env)
-            if xs.type in ITER or xs.type.startswith('List:'):
-                et = ITER.get(xs.type) or xs.type[5:]
+            if xs.type in ITER or xs.type.startswith('List:') or xs.type == 'DList':
+                et = ITER.get(xs.type) or ('D' if xs.type == 'DList' else xs.type[5:])
                 x = lname(g.target.id)
                 keep, self.pre, lazy, self.lazy = self.pre, [], self.lazy, 0
                 try:
-                    elt = self.expr(node.elt, dict(env, **{g.target.id: V(x, et, None)}))
+                    # `[E for a in XS for b in YS]` is the concatenation of `[E for b in YS]` over the `a` of XS
+                    elt_node = ast.copy_location(ast.ListComp(elt=node.elt, generators=[node.generators[1]]), node) if two else node.elt
+                    elt = self.expr(elt_node, dict(env, **{g.target.id: V(x, et, None)}))
                     inner = self.pre
                 finally:
                     self.pre, self.lazy = keep, lazy
@@ -1023,8 +1069,14 @@ class Fn:
                     m = re.fullmatch(r"let (\S+) : (.*?) ← (.*)", ln)
                     body = f'({m.group(3)}) >>= fun ({m.group(1)} : {m.group(2)}) => {body}'
                 if inner:
-                    return self.hoist(node, f'List.mapM (fun {x} => {body}) {xs.lean}', 'List:' + elt.type)
-                return V(f'({xs.lean}.map (fun {x} => {elt.lean}))', 'List:' + elt.type, None)
+                    r = self.hoist(node, f'List.mapM (fun {x} => {body}) {xs.lean}', 'List:' + elt.type)
+                else:
+                    r = V(f'({xs.lean}.map (fun {x} => {elt.lean}))', 'List:' + elt.type, None)
+                if two:
+                    if not elt.type.startswith('List:'):
+                        self.fail(node, f'nested comprehension whose inner part is a {elt.type}')
+                    return V(f'{r.lean}.flatten', elt.type, None)
+                return r
         if len(node.generators) == 1 and not g.is_async and isinstance(g.target, ast.Name) and len(g.ifs) == 1 \
                 and isinstance(node.elt, ast.Name) and node.elt.id == g.target.id:
             c, xs = g.ifs[0], self.expr(g.iter, env)
@@ -1150,10 +1202,31 @@ class Fn:
         if isinstance(fn, ast.Attribute) and isinstance(fn.value, ast.Name) and fn.value.id == 'self' \
                 and (self.t.cls, fn.attr) in self.registry and not self.is_property(fn.attr) and not node.keywords:
             d = self.registry[(self.t.cls, fn.attr)]       # a method of the class, translated earlier
-            args = self.call_args(node, env)
+            ct = next(t for t in TARGETS if (t.cls, t.fn) == (self.t.cls, fn.attr) and t.group == self.t.group and not t.fragment)
+            objs = {}
+            if 'Object' in (ct.args or {}).values():
+                if any(isinstance(a, ast.Starred) for a in node.args) or len(node.args) != len(ct.args):
+                    self.fail(node, f'call self.{fn.attr}(...) with an object argument: not exactly the positional arguments')
+                actual = [a for a, ty in zip(node.args, ct.args.values()) if ty != 'Object']
+                objs = {n: a for a, (n, ty) in zip(node.args, ct.args.items()) if ty == 'Object'}
+                args = [self.expr(a, env) for a in actual]
+            else:
+                args = self.call_args(node, env)
+            args = [self.none_is_error(node, a) if a.type == 'OptD' and p[1] == 'D' else a for a, p in zip(args, d.params[:d.nargs])] \
+                if len(args) == d.nargs else args
             if [a.type for a in args] != [p[1] for p in d.params[:d.nargs]]:
                 self.fail(node, f'call self.{fn.attr}(...): argument types {[a.type for a in args]}')
-            rest = [self.param(*p).lean for p in d.params[d.nargs:]]
+            origin = {p: k for k, (p, _) in ct.self_attrs.items() if k.split('.')[0] in objs}
+            rest = []
+            for p in d.params[d.nargs:]:
+                if p[0] in origin:      # `<object argument>.<ATTR>` of the callee: the same attribute of the actual argument
+                    o, attr = origin[p[0]].split('.', 1)
+                    v = self.expr(ast.parse(f'{ast.unparse(objs[o])}.{attr}', mode='eval').body, env)
+                    if v.type != p[1]:
+                        self.fail(node, f'call self.{fn.attr}(...): `{ast.unparse(objs[o])}.{attr}` is a {v.type}, the callee reads a {p[1]}')
+                    rest.append(v.lean)
+                else:
+                    rest.append(self.param(*p).lean)
             lean = ' '.join([d.lean] + [a.lean for a in args] + rest)
             return self.hoist(node, lean, d.rtype) if d.monadic else V(f'({lean})', d.rtype, None)
         ext = self.t.externals.get(callee)
@@ -1411,7 +1484,7 @@ class Fn:
                 self.rtype_lean = ' × '.join(lean_type(e.type) for e in v.elts)
                 v = V('(' + ', '.join(e.lean for e in v.elts) + ')', 'Tuple:' + self.rtype_lean, None)
             elif v.type not in ('Str', 'Bytes', 'Int', 'Bool', 'TD', 'PyDate', 'PyTime', 'PyDateTime', 'StrList', 'D', 'OptD', 'DList', 'ATList', 'CompList', 'ItemList', 'StepOut') \
-                    and not v.type.startswith('Result:'):
+                    and not v.type.startswith('Result:') and v.type != self.t.ret:
                 self.fail(s, f'return of a value of type {v.type}')
             if self.t.ret == 'OptD' and v.type == 'D':       # a present value where the function returns an optional
                 v = V(f'(some {v.lean})', 'OptD', None)
@@ -2348,7 +2421,7 @@ def translate(src_dir, group='enc'):
         sig = ''.join(f' ({p} : {lean_type(ty)})' for p, ty in fn.used)
         opaque = sorted({e[3] for e in t.externals.values() if isinstance(e[0], str) and e[0] in ('pfun', 'expr') and e[3] not in LEAN_TYPE and e[3] != 'Object'})
         opaque = sorted(set(opaque) | {o for o in ('AT',) if re.search(r'\b' + o + r'\b', sig)})
-        if group == 'parse':
+        if group in ('parse', 'alarm'):
             opaque = opaque_types([lean_type(ty) for _, ty in fn.used] + [lean_type(fn.rtype)])
         sig = ''.join(f' {{{o} : Type}}' for o in opaque) + sig
         rt = fn.rtype_lean or lean_type(fn.rtype)
